@@ -55,6 +55,9 @@ struct Thr {
     bool cv_timed_out = false;
     bool changed_since_report = true;
     bool at_start = false;      // released from the start barrier and no operation performed yet
+    void (*pending_fn)( void* ) = nullptr;   // asynchronous handler to run on this participant (signal delivery, 4.6)
+    void* pending_arg = nullptr;
+    int   pending_from = -1;
     std::function<void()> fn;
 };
 
@@ -80,11 +83,13 @@ struct Sched {
     unsigned nochange_reports = 0;
     bool verbose = false;
     bool hb_on = false;
+    int in_handler = 0;             // > 0: an asynchronous handler runs; its operations are not scheduling points
     uint16_t lower[MAXT] = {};      // lower[t]: threads that must run before t is picked at a free choice
     bool any_lower = false;
 };
 
 Sched S;
+pthread_t g_controller_pt;
 thread_local Thr* tl_self = nullptr;
 
 // ---------------------------------------------------------------------------------------------
@@ -273,7 +278,20 @@ void switch_to( int next )
     S.cur = next;
     bool fin = me->st == T_FINISHED;
     wake( S.thr[next] );
-    if ( !fin ) wait_turn( *me );
+    if ( !fin ) {
+        wait_turn( *me );
+        // woken only to run a handler on behalf of another participant: run it atomically, hand the baton straight back
+        while ( me->pending_fn ) {
+            void (*fn)( void* ) = me->pending_fn; void* arg = me->pending_arg; int from = me->pending_from;
+            me->pending_fn = nullptr;
+            ++S.in_handler;
+            fn( arg );
+            --S.in_handler;
+            S.cur = from;
+            wake( S.thr[from] );
+            wait_turn( *me );
+        }
+    }
 }
 
 // the heart: pick who runs next (or an environment value)
@@ -475,7 +493,7 @@ void point( const void* addr, Kind k ) noexcept
     Thr* me = tl_self;
     if ( !me || S.phase == P_OFF ) return;
     ++S.steps;
-    if ( S.phase != P_EXPLORE ) return;
+    if ( S.phase != P_EXPLORE || S.in_handler ) return;
     if ( ++S.explore_steps > S.horizon )
         die( 2, "horizon", "step horizon %u hit by t%d at %s %p", S.horizon, me->id, kind_name( k ), addr );
     if ( S.verbose )
@@ -521,6 +539,29 @@ void fail_now( const char* what ) noexcept
     if ( n >= sizeof sig ) n = sizeof sig - 1;
     memcpy( sig, what, n ); sig[n] = 0;
     die( 1, sig, "%s", what );
+}
+
+int participant_of( unsigned long pthread_id ) noexcept
+{
+    if ( S.phase == P_OFF ) return -1;
+    if ( pthread_id == (unsigned long) g_controller_pt ) return 0;
+    for ( int i = 1; i < S.nthr; ++i ) if ( S.thr[i].has_pt && (unsigned long) S.thr[i].pt == pthread_id ) return i;
+    return -1;
+}
+
+// Runs fn(arg) on participant 'target' right now, atomically (no scheduling points inside), then returns here.
+void run_on( int target, void (*fn)( void* ), void* arg ) noexcept
+{
+    Thr* me = tl_self;
+    if ( !me || target < 0 || target >= S.nthr ) return;
+    if ( target == me->id ) { ++S.in_handler; fn( arg ); --S.in_handler; return; }
+    Thr& t = S.thr[target];
+    if ( t.st == T_FINISHED || t.st == T_NONE ) return;      // the thread is gone: the signal is lost, as in real life
+    t.pending_fn = fn; t.pending_arg = arg; t.pending_from = me->id;
+    S.cur = target;
+    wake( t );
+    wait_turn( *me );
+    S.cur = me->id;
 }
 
 void fail_sig( const char* signature, const char* message ) noexcept
@@ -834,6 +875,8 @@ void execute( cdsmc::Scenario const& sc, std::vector<Dev> const& devs, int bound
     c.id = 0; c.st = T_RUNNABLE; c.worker = false; c.go.store( 0 ); c.changed_since_report = true;
     S.nthr = 1;
     tl_self = &c;
+    g_controller_pt = pthread_self();
+    S.in_handler = 0;
     S.phase = P_SETUP;
 
     run->setup();
